@@ -148,7 +148,7 @@ func GenFlow(r *Rand, name string, o GenOpts) *Program {
 		if nout == 0 {
 			t.Invoke = true
 		}
-		if t.Fn.Err && r.Intn(100) < o.FallbackPct && (nout > 0 || r.Chance(1, 4)) {
+		if t.Fn.Err && r.Intn(100) < o.FallbackPct && (nout > 0 || r.Chance(1, 2)) {
 			t.Fallback = true
 		}
 		for _, in := range t.Fn.Ins {
@@ -304,6 +304,7 @@ func (g *flowGen) importize() {
 	for fn := range moved {
 		fn.Spell = SpImport
 	}
+	p.AliasImports = r.Chance(1, 2)
 }
 
 func (g *flowGen) finish() {
@@ -377,6 +378,9 @@ func (g *flowGen) finish() {
 	}
 	if p.Generic {
 		feat["generic-encl"] = true
+	}
+	if p.AliasImports {
+		feat["helper-imports-aliased"] = true
 	}
 	if p.InMethod {
 		feat["method-encl"] = true
